@@ -3,5 +3,9 @@ import json,glob
 print("| seeded change | property | needs | caught by |\n|---|---|---|---|")
 for f in sorted(glob.glob('/verif/seeded/*/meta.json')):
     m=json.load(open(f)); n=f.split('/')[-2]
-    c=m['check_result']['caught_by_subchecks']+(" — **missed at first**" if m['check_result'].get('missed_at_first') else "")
+    cr=m['check_result']
+    if cr.get('not_closed'):
+        c="**not caught** (judged outside the stated property, see note in meta.json and the text above)"
+    else:
+        c=cr['caught_by_subchecks']+(" — **missed at first**" if cr.get('missed_at_first') else "")
     print(f"| {n}: {m['change']} | {m['property']} | {m['needs_to_manifest']} | {c} |")
